@@ -292,7 +292,7 @@ def run_point(p: Dict[str, Any], verbose: bool = False) -> Tuple[Optional[Dict[s
     if problems:
         verdict = {"what": f"C12 {p}: {problems[0][:700]}", "replay": {"problems": problems[:5]},
                    "signature": {"check": "sighting-hidden-by-duplicate-guard" if hidden else problems[0].split(":")[0]}}
-    return verdict, obs, 1
+    return verdict, obs, w.loop.handles_run
 
 
 def judge_tc(problems: List[str], w: World, host: Any, p: Dict[str, Any], t_begin: float) -> None:
